@@ -36,13 +36,14 @@ class HarnessError(Exception):
 
 class Handle:
     __slots__ = ("solver", "ref", "cls", "kw", "lineage", "alive", "mode", "tainted", "origin", "parent", "added",
-                 "twin", "pins")
+                 "twin", "pins", "expansions")
 
     def __init__(self, solver, ref, cls, kw, lineage, mode, origin, parent=None):
         self.parent = parent  # index of the handle this one was branched from (ancestry for merge)
         self.added = []  # AST hashes of constraints the user added to this handle or its ancestors (C16)
         self.twin = None
         self.pins = {}  # var -> value, from user-added constraints of the literal form var == const / b / Not(b)
+        self.expansions = []  # constraints ConstraintExpansionMixin derives from answers (accepted in unsat cores)
         self.solver = solver
         self.ref = ref
         self.cls = cls
@@ -427,6 +428,7 @@ class Machine:
             nh = Handle(val, h.ref.copy(), h.cls, h.kw, list(h.lineage), h.mode, "branch", parent=pi)
         nh.added = list(h.added)
         nh.pins = dict(h.pins)
+        nh.expansions = list(h.expansions)
         self.handles.append(nh)
         return ["h", len(self.handles) - 1]
 
@@ -672,6 +674,9 @@ class Machine:
             miss = h.ref.missing_value(e, vals, extras)
             if miss is not None:
                 self.bad("incomplete-eval", h, op, e=e, n=n, got=vals, missing=miss, extra=extras)
+        if len(vals) < n and not extras and vals and S.width_of(e, self.variables) > 0:
+            w_ = S.width_of(e, self.variables)
+            h.expansions.append(["bor"] + [["eq", e, ["const", v, w_]] for v in vals] if len(vals) > 1 else ["eq", e, ["const", vals[0], w_]])
         return ["vals", sorted(vals) if len(vals) < n else vals]
 
     def op_batch_eval(self, op):
@@ -770,6 +775,9 @@ class Machine:
             if is_max and sk(pat) < sk(opt) or (not is_max) and sk(pat) > sk(opt):
                 self.bad("approx-optimum-excludes", h, op, e=e, signed=signed, is_max=is_max, got=r, true_opt=opt,
                          extra=extras)
+        if not extras:
+            cmpop = ("sle" if signed else "ule") if is_max else ("sge" if signed else "uge")
+            h.expansions.append([cmpop, e, ["const", pat, w]])
         return ["opt", pat]
 
     def op_min(self, op):
@@ -811,6 +819,8 @@ class Machine:
                 self.bad("wrong-solution", h, op, e=e, v=v, got=got, expected=exp, extra=extras)
         elif exp and not got:
             self.bad("approx-solution-excludes", h, op, e=e, v=v, got=got, expected=exp, extra=extras)
+        if not got and not extras and isinstance(v, int) and S.width_of(e, self.variables) > 0:
+            h.expansions.append(["ne", e, ["const", v, S.width_of(e, self.variables)]])
         return ["sol", got]
 
     def _truth(self, op, want_true):
@@ -1099,7 +1109,8 @@ class Machine:
                             for x in c[1:]:
                                 yield from conj(x)
 
-                    for c in h.lineage:
+                    # ... or of a constraint ConstraintExpansionMixin derived from an earlier answer of this solver
+                    for c in list(h.lineage) + list(h.expansions):
                         for cc in conj(c):
                             f = S.compile_spec(cc, self.variables, self.order)
                             tables.add(tuple(bool(f(*m)) for m in uni))
